@@ -36,6 +36,19 @@ theorem color_isSome (b : UInt8) : (Gen.ColorType_from_u8 (b.toNat : Int)).isSom
 theorem color_getD (b : UInt8) (h : colorOk b.toNat = true) : (Gen.ColorType_from_u8 (b.toNat : Int)).getD 0 = (b.toNat : Int) := by
   rw [(kernel_color_from_u8 b.toNat b.toNat_lt).1]; simp [h]
 
+/-! the `_ok` functions of the decoders on a byte of the chunk body (`from_u8` cannot panic), again from the theorems of
+    `Props/KernelsEnums.lean` and not from the translated text (which is the constant `true` for a `match`, and need not be for another way of
+    writing the decoder) -/
+theorem unit_ok (b : UInt8) : Gen.Unit_from_u8_ok (b.toNat : Int) = true := (kernel_unit_from_u8 b.toNat b.toNat_lt).2
+theorem dispose_ok (b : UInt8) : Gen.DisposeOp_from_u8_ok (b.toNat : Int) = true := (kernel_dispose_from_u8 b.toNat b.toNat_lt).2
+theorem blend_ok (b : UInt8) : Gen.BlendOp_from_u8_ok (b.toNat : Int) = true := (kernel_blend_from_u8 b.toNat b.toNat_lt).2
+theorem srgb_ok (b : UInt8) : Gen.SrgbRenderingIntent_from_raw_ok (b.toNat : Int) = true := (kernel_srgb_from_raw b.toNat b.toNat_lt).2.1
+theorem depth_ok (b : UInt8) : Gen.BitDepth_from_u8_ok (b.toNat : Int) = true := (kernel_depth_from_u8 b.toNat b.toNat_lt).2.2
+theorem color_ok (b : UInt8) : Gen.ColorType_from_u8_ok (b.toNat : Int) = true := (kernel_color_from_u8 b.toNat b.toNat_lt).2.2
+/-- `is_combination_invalid` cannot panic on two values that passed `from_u8` (second half of `kernel_combination_invalid`) -/
+theorem combination_ok (c b : UInt8) (hc : colorOk c.toNat = true) (hd : depthOk b.toNat = true) :
+    Gen.ColorType_is_combination_invalid_ok (c.toNat : Int) (b.toNat : Int) = true := (kernel_combination_invalid _ _ hc hd).2
+
 /-- `parser_tie (f) [lemmas of the first step] [lemmas of the evaluation, among them the definition of f]` proves `model parser = f (translated parser ..)` after both have been unfolded:
     * the join points of the model's `do` block (`if c then throw e` followed by more steps) are resolved WITHOUT duplicating the rest of
       the parser (`simp -zeta` with `throw_bind` first: each join point is then used once);
@@ -69,14 +82,13 @@ syntax "parser_ok" "[" Lean.Parser.Tactic.simpLemma,* "]" : tactic
 macro_rules
   | `(tactic| parser_ok [$ls,*]) =>
     `(tactic| (simp only [bInt_length, beU8_bInt, beU16_bInt, beU32_bInt, unit_isSome, dispose_isSome, blend_isSome,
-                 srgb_isSome, depth_isSome, color_isSome, Gen.Unit_from_u8_ok, Gen.DisposeOp_from_u8_ok, Gen.BlendOp_from_u8_ok,
-                 Gen.SrgbRenderingIntent_from_raw_ok, Gen.BitDepth_from_u8_ok, Gen.ColorType_from_u8_ok, Gen.ScaledFloat_from_scaled_ok,
-                 Gen.ColorType_is_combination_invalid_ok]
+                 srgb_isSome, depth_isSome, color_isSome, unit_ok, dispose_ok, blend_ok, srgb_ok, depth_ok, color_ok,
+                 Gen.ScaledFloat_from_scaled_ok]
                repeat' (first
                  | (with_reducible rfl)
                  | (with_reducible refine ite_eq_true_of (fun h__ => ?_) (fun h__ => ?_))
                  | (with_reducible refine and_eq_true_of ?_ ?_))
-               all_goals try (simp_all [-Nat.not_le, unit_getD, dispose_getD, blend_getD, srgb_getD, depth_getD, color_getD, $ls,*])
+               all_goals try (simp_all [-Nat.not_le, unit_getD, dispose_getD, blend_getD, srgb_getD, depth_getD, color_getD, combination_ok, $ls,*])
                all_goals try omega))
 
 theorem be16_mul2_ok (a b : UInt8) : (0 ≤ ((be16 a b : Nat) : Int) * 2 ∧ ((be16 a b : Nat) : Int) * 2 ≤ 4294967295) := by
